@@ -24,7 +24,13 @@ def body(c, prop="C12", kinds='{"val", "del", "exp"}', nvks=(1,), invariants=("R
             if kinds.count(',') >= 3:
                 # retention is decided per key: with all four entry kinds the quick model check uses one key
                 consts.update(Keys="{1}", MaxTs=("3" if nvk == 1 else "4"), MaxId="6")
-        L.model_check(c, "picks NVK=%d" % nvk, consts, invariants, timeout=1800)
+        if not q and kinds.count(',') == 2:
+            # thorough, three kinds: the deep configuration with deletion markers only (expired entries are
+            # treated exactly like them by addKeys), the shallower one with all three
+            L.model_check(c, "picks NVK=%d, val/del, 4 writes" % nvk, dict(consts, Kinds='{"val", "del"}'), invariants, timeout=3000)
+            L.model_check(c, "picks NVK=%d, val/del/exp, 3 writes" % nvk, dict(consts, MaxTs="3", MaxId="6"), invariants, timeout=3000)
+            continue
+        L.model_check(c, "picks NVK=%d" % nvk, consts, invariants, timeout=3000)
     if prop == "C12":
         # the base level: without the clamp at the first non-empty level (code before the repair) and with
         # the rejected repair (skipped levels only counted as overlapping) the model has to show the loss
